@@ -183,7 +183,8 @@ C12_NAMES = [b"Al Bo", "Zoë Émile".encode(), b"x", b"a > b", b"Name With  Two 
              b"O'Neil (dev) [x] {y} = z", b"trailing dot.", b"12345"]
 C12_EMAILS = [b"a@b.cc", b"first.last+tag@sub.example.org", b"e@x.yy", b"u_n-d.er@a1.b2.museum", b"X@Y.ZZ"]
 C12_MSGS = [b"one line", b"subject\n\nbody line one\nbody: with colon\n\nlast", "nön-äscii ✓".encode(),
-            b"x" * 3000, b"trailing\n", b"", b"a\n\n\nb", b"tab\there: and colon", b"50% done %s %v"]
+            b"x" * 3000, b"trailing\n", b"", b"a\n\n\nb", b"tab\there: and colon", b"50% done %s %v",
+            b"line1\r\nline2\r", b"cr\rinside", b"\r\n\r\nblank crlf lines\r\n"]
 
 
 def c12_case(args):
